@@ -135,6 +135,8 @@ def rust_enum(d):
     for v in d['variants']:
         if v.get('doc') or d.get('doc'):
             lines.append('    /// documented variant')
+        for a in v.get('attrs', []):
+            lines.append('    ' + a)          # attributes that do not gate the variant: cfg_attr, allow, doc
         if v.get('cfg') == 'all':
             lines.append('    #[cfg(all())]')
         elif v.get('cfg') == 'any':
